@@ -373,7 +373,12 @@ def body_fractal(case):
         rng = np.random.default_rng(case['seed'])
         n = case['n']
         # primaries are handed over independently as integer-typed 0/1 patterns or as fractional float matrices
-        mats = [rng.integers(0, 2, (n, n)).astype(np.int64) if rng.random() < 0.5 else rng.uniform(0, 1, (n, n)) for _ in range(3)]
+        kinds = [rng.random() for _ in range(3)]
+        # ... or with entries outside [0, 1] (signed weights, 0..3 intensities): the statement is about Kronecker powers, not images
+        mats = [rng.integers(0, 2, (n, n)).astype(np.int64) if u < 0.35 else rng.uniform(0, 1, (n, n)) if u < 0.7 else
+                rng.uniform(-1.5, 2.0, (n, n)) if u < 0.85 else rng.integers(-1, 4, (n, n)).astype(np.int64) for u in kinds]
+        if any(np.min(m_) < 0 or np.max(m_) > 1 for m_ in mats):
+            lab.add('entries_outside_unit_interval')
         if len({m_.dtype.kind for m_ in mats}) > 1:
             lab.add('mixed_dtype_primaries')
         f = mdl.rgb_fractal(mats[0].copy(), mats[1].copy(), mats[2].copy(), level)
